@@ -8,8 +8,10 @@ proof   Props/C13 (lexer model, action table, unparser definitions):
           comments_transparent (FULL): for all texts erase(parse(text, True)) = parse(text, False), same errors;
           comments_faithful (end to end, ghost derivation trees): every `@comments` of the accepted tree is set_comments
           of a shifted token whose comments are comment tokens of the source; comments_attached_once: with multiplicity
-          (no token's comments reach two nodes); source order / disjointness across tokens only from the hypothesis
-          ShiftedOrdered (comments_in_source_order_partial); no_comment_attached_twice, action_slots_used_once (kernel
+          (no token's comments reach two nodes); comments_in_source_order / attached_comment_offsets_increasing (no
+          hypothesis): source order within a node, disjointness across tokens, strictly increasing offsets, through
+          auto_semi, pops from next_tokens and the rewind of backtracked_token; comments_faithful_ordered combines them;
+          no_comment_attached_twice, action_slots_used_once (kernel
           decisions over Gen.Actions); line_comment_followed_by_newline (kernel decision over Gen.Defs / Gen.Rules).
 tie     S2 (text -> tree with positions, token maps and comments, capture off and on) on the commented inputs;
         S3/S4 (pretty printers) on the commented trees.
@@ -656,9 +658,8 @@ def run(ctx):
     ctx.trusted += ['Lean 4.33 kernel', 'translators g_tables / g_actions / g_lexdata / g_defs / g_rules',
                     'Spec.Es5Lex / Spec.Es5Parse (comment list, trees) as the independent reference',
                     'the end-to-end statement comments_transparent is proved for the composed model (lexer + LR + actions) '
-                    'with no hypothesis; faithfulness is proved end to end for the accepted tree (comments_faithful, '
-                    'comments_attached_once) except the source order / disjointness of the comments of different tokens along whole '
-                    'runs (hypothesis ShiftedOrdered of comments_in_source_order_partial; judged on the implementation by J2)']
+                    'with no hypothesis; faithfulness is proved end to end for the accepted tree (comments_faithful_ordered: verbatim '
+                    'source comments, attached once, in source order, disjoint across tokens, strictly increasing offsets)']
     ctx.assumptions += ['well-formed Unicode scalar sequences', 'pretty printer only (minify printers drop comments by design)']
     spec = specclient.Spec(ctx)
     known_witnesses(ctx, spec)
